@@ -25,10 +25,10 @@ theorem vals2_pos {a : PArg} (h : PosForm2 a) : 0 < (vals2 1 a).1 ∧ 0 < (vals2
 
 /-! ### index helpers -/
 
-theorem crw2 (O Cg KH KW g : Nat) : convReshapeWeight [O, Cg, KH, KW] g 2 = [O / g, g, Cg, KH, KW] := by
+theorem crw2 (O Cg KH KW g : Nat) : convReshapeWeight [O, Cg, KH, KW] g 2 = [g, O / g, Cg, KH, KW] := by
   simp [convReshapeWeight, setI, getI, posI, List.range, List.range.loop]
 
-theorem cri2 (N C H W g : Nat) : convReshapeInput [N, C, H, W] g 2 = [N, 1, g, C / g, H, W] := by
+theorem cri2 (N C H W g : Nat) : convReshapeInput [N, C, H, W] g 2 = [N, g, 1, C / g, H, W] := by
   simp [convReshapeInput, setI, getI, posI, List.range, List.range.loop]
 
 theorem crr2 (a b c d e : Nat) : convReshapeReduce [a, b, c, d, e] 2 = [a, b * c, d, e] := by
@@ -89,27 +89,27 @@ theorem listSum_allIdx3 (A B C : Nat) (f : Idx → Int) :
 /-! ### reshapes as index maps -/
 
 theorem rsh_weight2 {Og g Cg KH KW a b c kh kw : Nat} (ha : a < Og) (hb : b < g) (hc : c < Cg) (hkh : kh < KH) (hkw : kw < KW) :
-    reshapeIdx [Og * g, Cg, KH, KW] [Og, g, Cg, KH, KW] [a, b, c, kh, kw] = [a * g + b, c, kh, kw] := by
+    reshapeIdx [Og * g, Cg, KH, KW] [g, Og, Cg, KH, KW] [b, a, c, kh, kw] = [b * Og + a, c, kh, kw] := by
   apply reshapeIdx_eq
-  · simp only [InShape]; exact ⟨lt_mul_of_lt ha hb, hc, hkh, hkw, trivial⟩
+  · simp only [InShape]; exact ⟨by rw [Nat.mul_comm Og g]; exact lt_mul_of_lt hb ha, hc, hkh, hkw, trivial⟩
   · simp only [computeOffset, strides, prod]; ring
 
 theorem rsh_input2 {N g Cg H W n b c i j : Nat} (hn : n < N) (hb : b < g) (hc : c < Cg) (hi : i < H) (hj : j < W) :
-    reshapeIdx [N, g * Cg, H, W] [N, 1, g, Cg, H, W] [n, 0, b, c, i, j] = [n, b * Cg + c, i, j] := by
+    reshapeIdx [N, g * Cg, H, W] [N, g, 1, Cg, H, W] [n, b, 0, c, i, j] = [n, b * Cg + c, i, j] := by
   apply reshapeIdx_eq
   · simp only [InShape]; exact ⟨hn, lt_mul_of_lt hb hc, hi, hj, trivial⟩
   · simp only [computeOffset, strides, prod]; ring
 
-theorem rsh_reduce2 {N Og g Ho Wo n o i j : Nat} (hg : 0 < g) (hn : n < N) (ho : o < Og * g) (hi : i < Ho) (hj : j < Wo) :
-    reshapeIdx [N, Og, g, Ho, Wo] [N, Og * g, Ho, Wo] [n, o, i, j] = [n, o / g, o % g, i, j] := by
+theorem rsh_reduce2 {N Og g Ho Wo n o i j : Nat} (hOg : 0 < Og) (hn : n < N) (ho : o < Og * g) (hi : i < Ho) (hj : j < Wo) :
+    reshapeIdx [N, g, Og, Ho, Wo] [N, Og * g, Ho, Wo] [n, o, i, j] = [n, o / Og, o % Og, i, j] := by
   apply reshapeIdx_eq
   · simp only [InShape]
-    exact ⟨hn, (Nat.div_lt_iff_lt_mul hg).2 ho, Nat.mod_lt _ hg, hi, hj, trivial⟩
+    exact ⟨hn, div_lt_groups hOg ho, Nat.mod_lt _ hOg, hi, hj, trivial⟩
   · simp only [computeOffset, strides, prod]
-    have := Nat.div_add_mod o g
+    have := Nat.div_add_mod o Og
     calc Og * g * (Ho * (Wo * 1)) * n + (Ho * (Wo * 1) * o + (Wo * 1 * i + (1 * j + 0)))
         = Og * g * Ho * Wo * n + (Ho * Wo * o + (Wo * i + j)) := by ring
-      _ = Og * g * Ho * Wo * n + (Ho * Wo * (g * (o / g) + o % g) + (Wo * i + j)) := by rw [this]
+      _ = Og * g * Ho * Wo * n + (Ho * Wo * (Og * (o / Og) + o % Og) + (Wo * i + j)) := by rw [this]
       _ = _ := by ring
 
 theorem rsh_bias2 {O o : Nat} (ho : o < O) : reshapeIdx [O] [O, 1, 1] [o, 0, 0] = [o] := by
@@ -120,7 +120,7 @@ theorem rsh_bias2 {O o : Nat} (ho : o < O) : reshapeIdx [O] [O, 1, 1] [o, 0, 0] 
 /-! ### stage 1: the weight -/
 
 def rwArr2 (w : Arr Int) (Og g Cg KH KW : Nat) : Arr Int :=
-  ⟨[Og, g, Cg, KH, KW], fun d => w.get (reshapeIdx w.shape [Og, g, Cg, KH, KW] d)⟩
+  ⟨[g, Og, Cg, KH, KW], fun d => w.get (reshapeIdx w.shape [g, Og, Cg, KH, KW] d)⟩
 
 def awArr2 (w : Arr Int) (Og g Cg KH KW : Nat) (dil : PArg) : Arr Int :=
   match dil with
@@ -130,8 +130,8 @@ def awArr2 (w : Arr Int) (Og g Cg KH KW : Nat) (dil : PArg) : Arr Int :=
 theorem convWeight2_eq {w : Arr Int} {Og g Cg KH KW : Nat} (hw : w.shape = [Og * g, Cg, KH, KW]) (hg : 0 < g) (dil : PArg) :
     convWeight 2 w dil g = some (awArr2 w Og g Cg KH KW dil) := by
   have hdiv : Og * g / g = Og := Nat.mul_div_cancel _ hg
-  have hprod : prod w.shape = prod [Og, g, Cg, KH, KW] := by rw [hw]; simp only [prod]; ring
-  have hre := reshapeV_some (a := w) (dst := [Og, g, Cg, KH, KW]) (by simp) hprod
+  have hprod : prod w.shape = prod [g, Og, Cg, KH, KW] := by rw [hw]; simp only [prod]; ring
+  have hre := reshapeV_some (a := w) (dst := [g, Og, Cg, KH, KW]) (by simp) hprod
   unfold convWeight
   rw [hw, crw2, hdiv, hre]
   cases dil <;> rfl
@@ -142,7 +142,7 @@ theorem dil_arith (K d : Nat) (hK : 0 < K) (hd : 0 < d) : K + (K - 1) * (d - 1) 
   simp only [Nat.add_sub_cancel]; ring
 
 theorem awArr2_shape {w : Arr Int} {Og g Cg KH KW : Nat} (hKH : 0 < KH) (hKW : 0 < KW) {dil : PArg} (hdil : PosForm2 dil) :
-    (awArr2 w Og g Cg KH KW dil).shape = [Og, g, Cg, (KH - 1) * (vals2 1 dil).1 + 1, (KW - 1) * (vals2 1 dil).2 + 1] := by
+    (awArr2 w Og g Cg KH KW dil).shape = [g, Og, Cg, (KH - 1) * (vals2 1 dil).1 + 1, (KW - 1) * (vals2 1 dil).2 + 1] := by
   rcases hdil with rfl | ⟨d, hd, rfl⟩ | ⟨dh, dw, hh, hw', rfl⟩
   · simp [awArr2, rwArr2, vals2]; omega
   · have e1 := dil_arith KH d hKH hd
@@ -162,18 +162,18 @@ theorem expandIdx_2 (spW spH a b c kh kw : Nat) :
 theorem awArr2_get {w : Arr Int} {Og g Cg KH KW : Nat} (hw : w.shape = [Og * g, Cg, KH, KW]) (hKH : 0 < KH) (hKW : 0 < KW)
     {dil : PArg} (hdil : PosForm2 dil) {a b c kh kw : Nat} (ha : a < Og) (hb : b < g) (hc : c < Cg)
     (hkh : kh < (KH - 1) * (vals2 1 dil).1 + 1) (hkw : kw < (KW - 1) * (vals2 1 dil).2 + 1) :
-    (awArr2 w Og g Cg KH KW dil).get [a, b, c, kh, kw]
+    (awArr2 w Og g Cg KH KW dil).get [b, a, c, kh, kw]
       = if kw % (vals2 1 dil).2 = 0 then
-          (if kh % (vals2 1 dil).1 = 0 then w.get [a * g + b, c, kh / (vals2 1 dil).1, kw / (vals2 1 dil).2] else 0)
+          (if kh % (vals2 1 dil).1 = 0 then w.get [b * Og + a, c, kh / (vals2 1 dil).1, kw / (vals2 1 dil).2] else 0)
         else 0 := by
   have hpos := vals2_pos hdil
   have h1 := div_lt_of_lt_dil hKH hpos.1 hkh
   have h2 := div_lt_of_lt_dil hKW hpos.2 hkw
   have expanded : ∀ (dil : PArg), ((∃ v, dil = .int v) ∨ (∃ a b, dil = .arr [a, b])) →
       0 < (vals2 1 dil).1 → 0 < (vals2 1 dil).2 → kh / (vals2 1 dil).1 < KH → kw / (vals2 1 dil).2 < KW →
-      expandGet (rwArr2 w Og g Cg KH KW) (convWindowAxis 2) (convExpandSpacing dil 2) [a, b, c, kh, kw]
+      expandGet (rwArr2 w Og g Cg KH KW) (convWindowAxis 2) (convExpandSpacing dil 2) [b, a, c, kh, kw]
         = if kw % (vals2 1 dil).2 = 0 then
-            (if kh % (vals2 1 dil).1 = 0 then w.get [a * g + b, c, kh / (vals2 1 dil).1, kw / (vals2 1 dil).2] else 0)
+            (if kh % (vals2 1 dil).1 = 0 then w.get [b * Og + a, c, kh / (vals2 1 dil).1, kw / (vals2 1 dil).2] else 0)
           else 0 := by
     intro dil hf hp1 hp2 h1 h2
     generalize hdH : (vals2 1 dil).1 = dH at *
@@ -201,19 +201,19 @@ theorem awArr2_get {w : Arr Int} {Og g Cg KH KW : Nat} (hw : w.shape = [Og * g, 
 /-! ### stage 2: the input -/
 
 def rinArr2 (x : Arr Int) (N g Cg H W : Nat) : Arr Int :=
-  ⟨[N, 1, g, Cg, H, W], fun d => x.get (reshapeIdx x.shape [N, 1, g, Cg, H, W] d)⟩
+  ⟨[N, g, 1, Cg, H, W], fun d => x.get (reshapeIdx x.shape [N, g, 1, Cg, H, W] d)⟩
 
 def ainArr2 (x : Arr Int) (N g Cg H W : Nat) (pad : PArg) : Arr Int :=
   match pad with
   | .none => rinArr2 x N g Cg H W
-  | _ => ⟨[N, 1, g, Cg, H + (vals2 0 pad).1 + (vals2 0 pad).1, W + (vals2 0 pad).2 + (vals2 0 pad).2],
+  | _ => ⟨[N, g, 1, Cg, H + (vals2 0 pad).1 + (vals2 0 pad).1, W + (vals2 0 pad).2 + (vals2 0 pad).2],
           padGet (rinArr2 x N g Cg H W) [0, 0, 0, 0, (vals2 0 pad).1, (vals2 0 pad).2]⟩
 
 theorem convInput2_eq {x : Arr Int} {N g Cg H W : Nat} (hx : x.shape = [N, g * Cg, H, W]) (hg : 0 < g) {pad : PArg} (hpad : Form2 pad) :
     convInput 2 x pad g = .ok (ainArr2 x N g Cg H W pad) := by
   have hdiv : g * Cg / g = Cg := Nat.mul_div_cancel_left _ hg
-  have hprod : prod x.shape = prod [N, 1, g, Cg, H, W] := by rw [hx]; simp only [prod]; ring
-  have hre := reshapeV_some (a := x) (dst := [N, 1, g, Cg, H, W]) (by simp) hprod
+  have hprod : prod x.shape = prod [N, g, 1, Cg, H, W] := by rw [hx]; simp only [prod]; ring
+  have hre := reshapeV_some (a := x) (dst := [N, g, 1, Cg, H, W]) (by simp) hprod
   unfold convInput
   rw [hx, cri2, hdiv, hre]
   rcases hpad with rfl | ⟨p, rfl⟩ | ⟨ph, pw, rfl⟩
@@ -224,15 +224,15 @@ theorem convInput2_eq {x : Arr Int} {N g Cg H W : Nat} (hx : x.shape = [N, g * C
     simp [ainArr2, vals2, padShape, rinArr2]
 
 theorem ainArr2_shape {x : Arr Int} {N g Cg H W : Nat} {pad : PArg} (hpad : Form2 pad) :
-    (ainArr2 x N g Cg H W pad).shape = [N, 1, g, Cg, H + 2 * (vals2 0 pad).1, W + 2 * (vals2 0 pad).2] := by
+    (ainArr2 x N g Cg H W pad).shape = [N, g, 1, Cg, H + 2 * (vals2 0 pad).1, W + 2 * (vals2 0 pad).2] := by
   rcases hpad with rfl | ⟨p, rfl⟩ | ⟨ph, pw, rfl⟩
   · simp [ainArr2, rinArr2, vals2]
   · simp [ainArr2, vals2]; omega
   · simp [ainArr2, vals2]; omega
 
 theorem padIdx_2d {N g Cg H W pH pW n b c i j : Nat} (hn : n < N) (hb : b < g) (hc : c < Cg) :
-    padIdx [n, 0, b, c, i, j] [N, 1, g, Cg, H, W] [0, 0, 0, 0, pH, pW]
-      = if (i < pH ∨ i ≥ H + pH) ∨ (j < pW ∨ j ≥ W + pW) then none else some [n, 0, b, c, i - pH, j - pW] := by
+    padIdx [n, b, 0, c, i, j] [N, g, 1, Cg, H, W] [0, 0, 0, 0, pH, pW]
+      = if (i < pH ∨ i ≥ H + pH) ∨ (j < pW ∨ j ≥ W + pW) then none else some [n, b, 0, c, i - pH, j - pW] := by
   have h1 : ¬ N ≤ n := by omega
   have h2 : ¬ g ≤ b := by omega
   have h3 : ¬ Cg ≤ c := by omega
@@ -240,9 +240,9 @@ theorem padIdx_2d {N g Cg H W pH pW n b c i j : Nat} (hn : n < N) (hb : b < g) (
 
 theorem ainArr2_get {x : Arr Int} {N g Cg H W : Nat} (hx : x.shape = [N, g * Cg, H, W]) {pad : PArg} (hpad : Form2 pad)
     {n b c i j : Nat} (hn : n < N) (hb : b < g) (hc : c < Cg) (hi : i < H + 2 * (vals2 0 pad).1) (hj : j < W + 2 * (vals2 0 pad).2) :
-    (ainArr2 x N g Cg H W pad).get [n, 0, b, c, i, j] = padRead2 x H W (vals2 0 pad).1 (vals2 0 pad).2 n (b * Cg + c) i j := by
+    (ainArr2 x N g Cg H W pad).get [n, b, 0, c, i, j] = padRead2 x H W (vals2 0 pad).1 (vals2 0 pad).2 n (b * Cg + c) i j := by
   have padded : ∀ pH pW, i < H + 2 * pH → j < W + 2 * pW →
-      padGet (rinArr2 x N g Cg H W) [0, 0, 0, 0, pH, pW] [n, 0, b, c, i, j] = padRead2 x H W pH pW n (b * Cg + c) i j := by
+      padGet (rinArr2 x N g Cg H W) [0, 0, 0, 0, pH, pW] [n, b, 0, c, i, j] = padRead2 x H W pH pW n (b * Cg + c) i j := by
     intro pH pW hi hj
     simp only [padGet, padRead2, rinArr2, padIdx_2d hn hb hc]
     by_cases h : (pH ≤ i ∧ i < H + pH) ∧ (pW ≤ j ∧ j < W + pW)
@@ -271,23 +271,23 @@ theorem sw_idx5' (a b c z1 z2 kw kh : Nat) :
 theorem merge8 (n a b i j c kw kh : Nat) : mergeIdx [7, 6, 3] 8 0 [n, a, b, i, j] [c, kw, kh] = [n, a, b, c, i, j, kw, kh] := by
   simp [mergeIdx]
 
-theorem convCore2 {ain aw : Arr Int} {N Og g Cg Hp Wp KHp KWp : Nat} (hain : ain.shape = [N, 1, g, Cg, Hp, Wp])
-    (haw : aw.shape = [Og, g, Cg, KHp, KWp]) (hOg : 0 < Og) (hg : 0 < g) (hKH : 0 < KHp) (hKW : 0 < KWp) (hfH : KHp ≤ Hp) (hfW : KWp ≤ Wp) :
+theorem convCore2 {ain aw : Arr Int} {N Og g Cg Hp Wp KHp KWp : Nat} (hain : ain.shape = [N, g, 1, Cg, Hp, Wp])
+    (haw : aw.shape = [g, Og, Cg, KHp, KWp]) (hOg : 0 < Og) (hg : 0 < g) (hKH : 0 < KHp) (hKW : 0 < KWp) (hfH : KHp ≤ Hp) (hfW : KWp ≤ Wp) :
     ∃ rs, convCore 2 ain aw = some rs ∧ rs.shape = [N, Og * g, Hp - (KHp - 1), Wp - (KWp - 1)] ∧
       ∀ n o i j, n < N → o < Og * g → i < Hp - (KHp - 1) → j < Wp - (KWp - 1) →
         rs.get [n, o, i, j] = sumTo Cg (fun c => sumTo KWp (fun kw => sumTo KHp (fun kh =>
-          ain.get [n, 0, o % g, c, i + kh, j + kw] * aw.get [o / g, o % g, c, kh, kw]))) := by
+          ain.get [n, o / Og, 0, c, i + kh, j + kw] * aw.get [o / Og, o % Og, c, kh, kw]))) := by
   have e1 : KHp - (KHp - 1) = 1 := by omega
   have e2 : KWp - (KWp - 1) = 1 := by omega
   have h1 : max (Hp - (KHp - 1)) 1 = Hp - (KHp - 1) := by omega
   have h2 : max (Wp - (KWp - 1)) 1 = Wp - (KWp - 1) := by omega
   have h3 : max 1 Og = Og := by omega
-  have swi : slidingWindowShape [N, 1, g, Cg, Hp, Wp] [KWp, KHp] [-1, -2] = [N, 1, g, Cg, Hp - (KHp - 1), Wp - (KWp - 1), KWp, KHp] := by
+  have swi : slidingWindowShape [N, g, 1, Cg, Hp, Wp] [KWp, KHp] [-1, -2] = [N, g, 1, Cg, Hp - (KHp - 1), Wp - (KWp - 1), KWp, KHp] := by
     simp [slidingWindowShape, posI]
-  have sww : slidingWindowShape [Og, g, Cg, KHp, KWp] [KWp, KHp] [-1, -2] = [Og, g, Cg, 1, 1, KWp, KHp] := by
+  have sww : slidingWindowShape [g, Og, Cg, KHp, KWp] [KWp, KHp] [-1, -2] = [g, Og, Cg, 1, 1, KWp, KHp] := by
     simp [slidingWindowShape, posI, e1, e2]
-  have hbs : bshape [N, 1, g, Cg, Hp - (KHp - 1), Wp - (KWp - 1), KWp, KHp] [Og, g, Cg, 1, 1, KWp, KHp]
-      = some [N, Og, g, Cg, Hp - (KHp - 1), Wp - (KWp - 1), KWp, KHp] := by
+  have hbs : bshape [N, g, 1, Cg, Hp - (KHp - 1), Wp - (KWp - 1), KWp, KHp] [g, Og, Cg, 1, 1, KWp, KHp]
+      = some [N, g, Og, Cg, Hp - (KHp - 1), Wp - (KWp - 1), KWp, KHp] := by
     simp [bshape, bshapeRev, h1, h2, h3]
   unfold convCore
   simp only [haw, cks2, cwa2, csa2, slidingWindowV, hain, swi, sww, binop, hbs,
@@ -295,21 +295,22 @@ theorem convCore2 {ain aw : Arr Int} {N Og g Cg Hp Wp KHp KWp : Nat} (hain : ain
   have hp7 : posI (0 + 1 + 1 + 1 + 1 + 1 + 1 + 1 + 1) (-1) = 7 := by decide
   have hp6 : posI (0 + 1 + 1 + 1 + 1 + 1 + 1 + 1 + 1) (-2) = 6 := by decide
   have hp3 : posI (0 + 1 + 1 + 1 + 1 + 1 + 1 + 1 + 1) (-5) = 3 := by decide
-  have hrm : removeAxes [7, 6, 3] 0 [N, Og, g, Cg, Hp - (KHp - 1), Wp - (KWp - 1), KWp, KHp] = [N, Og, g, Hp - (KHp - 1), Wp - (KWp - 1)] := by
+  have hrm : removeAxes [7, 6, 3] 0 [N, g, Og, Cg, Hp - (KHp - 1), Wp - (KWp - 1), KWp, KHp] = [N, g, Og, Hp - (KHp - 1), Wp - (KWp - 1)] := by
     simp [removeAxes]
-  have hpk : pickAxes [7, 6, 3] 0 [N, Og, g, Cg, Hp - (KHp - 1), Wp - (KWp - 1), KWp, KHp] = [Cg, KWp, KHp] := by
+  have hpk : pickAxes [7, 6, 3] 0 [N, g, Og, Cg, Hp - (KHp - 1), Wp - (KWp - 1), KWp, KHp] = [Cg, KWp, KHp] := by
     simp [pickAxes]
   simp only [hp7, hp6, hp3, hrm, hpk, crr2]
   rw [reshapeV_some (by simp) (by simp only [prod]; ring)]
+  rw [Nat.mul_comm g Og]
   refine ⟨_, rfl, rfl, ?_⟩
   intro n o i j hn ho hi hj
   simp only []
-  rw [rsh_reduce2 hg hn ho hi hj, listSum_allIdx3]
+  rw [rsh_reduce2 hOg hn ho hi hj, listSum_allIdx3]
   apply sumTo_congr; intro c hc
   apply sumTo_congr; intro kw hkw
   apply sumTo_congr; intro kh hkh
-  have hb : o % g < g := Nat.mod_lt _ hg
-  have ha : o / g < Og := (Nat.div_lt_iff_lt_mul hg).2 ho
+  have ha : o % Og < Og := Nat.mod_lt _ hOg
+  have hb : o / Og < g := div_lt_groups hOg ho
   simp only [Nat.reduceAdd, Nat.zero_add, merge8, bIdx, List.length_cons, List.length_nil, Nat.sub_self, List.drop_zero, List.drop_succ_cons,
     List.zipWith_cons_cons, List.zipWith_nil_right, if_true, bsel hn, bsel hb, bsel hc, bsel hi, bsel hj, bsel hkw, bsel hkh, bsel ha,
     sw_idx6, sw_idx5', Nat.zero_add]
@@ -364,7 +365,7 @@ theorem convnd2_eq_codeLoop {x w : Arr Int} {bias : Option (Arr Int)} {N Og g Cg
                  outSize W KW (vals2 1 stride).2 (vals2 0 padding).2 (vals2 1 dilation).2] ∧
       ∀ n o i j, n < N → o < Og * g → i < outSize H KH (vals2 1 stride).1 (vals2 0 padding).1 (vals2 1 dilation).1 →
         j < outSize W KW (vals2 1 stride).2 (vals2 0 padding).2 (vals2 1 dilation).2 →
-        r.get [n, o, i, j] = conv2dLoop (grpCode g) x w bias H W Cg KH KW (vals2 1 stride).1 (vals2 1 stride).2
+        r.get [n, o, i, j] = conv2dLoop (grpCode Og) x w bias H W Cg KH KW (vals2 1 stride).1 (vals2 1 stride).2
           (vals2 0 padding).1 (vals2 0 padding).2 (vals2 1 dilation).1 (vals2 1 dilation).2 n o i j := by
   obtain ⟨hdH, hdW⟩ := vals2_pos hd
   obtain ⟨hsH, hsW⟩ := vals2_pos hs
@@ -374,9 +375,9 @@ theorem convnd2_eq_codeLoop {x w : Arr Int} {bias : Option (Arr Int)} {N Og g Cg
   generalize hsWe : (vals2 1 stride).2 = sW at *
   generalize hpHe : (vals2 0 padding).1 = pH at *
   generalize hpWe : (vals2 0 padding).2 = pW at *
-  have hains : (ainArr2 x N g Cg H W padding).shape = [N, 1, g, Cg, H + 2 * pH, W + 2 * pW] := by
+  have hains : (ainArr2 x N g Cg H W padding).shape = [N, g, 1, Cg, H + 2 * pH, W + 2 * pW] := by
     rw [ainArr2_shape hp, hpHe, hpWe]
-  have haws : (awArr2 w Og g Cg KH KW dilation).shape = [Og, g, Cg, (KH - 1) * dH + 1, (KW - 1) * dW + 1] := by
+  have haws : (awArr2 w Og g Cg KH KW dilation).shape = [g, Og, Cg, (KH - 1) * dH + 1, (KW - 1) * dW + 1] := by
     rw [awArr2_shape hKH hKW hd, hdHe, hdWe]
   obtain ⟨rs, hrs, hrss, hrsg⟩ := convCore2 hains haws hOg hg (Nat.succ_pos _) (Nat.succ_pos _) hfH hfW
   obtain ⟨ad, had, hads, hadg⟩ := convBias2 hrss (by omega) (by omega) bias hb
@@ -397,15 +398,15 @@ theorem convnd2_eq_codeLoop {x w : Arr Int} {bias : Option (Arr Int)} {N Og g Cg
     unfold conv2dLoop grpCode
     congr 1
     apply sumTo_congr; intro c hc
-    have hb' : o % g < g := Nat.mod_lt _ hg
-    have ha' : o / g < Og := (Nat.div_lt_iff_lt_mul hg).2 ho
-    have hog : o / g * g + o % g = o := by rw [Nat.mul_comm]; exact Nat.div_add_mod o g
+    have hb' : o / Og < g := div_lt_groups hOg ho
+    have ha' : o % Og < Og := Nat.mod_lt _ hOg
+    have hog : o / Og * Og + o % Og = o := by rw [Nat.mul_comm]; exact Nat.div_add_mod o Og
     have step : ∀ kw, kw < (KW - 1) * dW + 1 → ∀ kh, kh < (KH - 1) * dH + 1 →
-        (ainArr2 x N g Cg H W padding).get [n, 0, o % g, c, i * sH + kh, j * sW + kw]
-            * (awArr2 w Og g Cg KH KW dilation).get [o / g, o % g, c, kh, kw]
+        (ainArr2 x N g Cg H W padding).get [n, o / Og, 0, c, i * sH + kh, j * sW + kw]
+            * (awArr2 w Og g Cg KH KW dilation).get [o / Og, o % Og, c, kh, kw]
         = if kw % dW = 0 then
             (if kh % dH = 0 then
-              padRead2 x H W pH pW n (o % g * Cg + c) (i * sH + kh) (j * sW + kw) * w.get [o, c, kh / dH, kw / dW]
+              padRead2 x H W pH pW n (o / Og * Cg + c) (i * sH + kh) (j * sW + kw) * w.get [o, c, kh / dH, kw / dW]
              else 0)
           else 0 := by
       intro kw hkw kh hkh
@@ -420,22 +421,22 @@ theorem convnd2_eq_codeLoop {x w : Arr Int} {bias : Option (Arr Int)} {N Og g Cg
       · simp
     have inner : ∀ kw, kw < (KW - 1) * dW + 1 →
         sumTo ((KH - 1) * dH + 1) (fun kh =>
-          (ainArr2 x N g Cg H W padding).get [n, 0, o % g, c, i * sH + kh, j * sW + kw]
-            * (awArr2 w Og g Cg KH KW dilation).get [o / g, o % g, c, kh, kw])
+          (ainArr2 x N g Cg H W padding).get [n, o / Og, 0, c, i * sH + kh, j * sW + kw]
+            * (awArr2 w Og g Cg KH KW dilation).get [o / Og, o % Og, c, kh, kw])
         = if kw % dW = 0 then
-            sumTo KH (fun kh => padRead2 x H W pH pW n (o % g * Cg + c) (i * sH + kh * dH) (j * sW + kw) * w.get [o, c, kh, kw / dW])
+            sumTo KH (fun kh => padRead2 x H W pH pW n (o / Og * Cg + c) (i * sH + kh * dH) (j * sW + kw) * w.get [o, c, kh, kw / dW])
           else 0 := by
       intro kw hkw
       rw [sumTo_congr (fun kh hkh => step kw hkw kh hkh)]
       by_cases hm : kw % dW = 0
       · simp only [hm, if_true]
         exact sumTo_dilate' KH dH hKH hdH (fun k k' =>
-          padRead2 x H W pH pW n (o % g * Cg + c) (i * sH + k') (j * sW + kw) * w.get [o, c, k, kw / dW])
+          padRead2 x H W pH pW n (o / Og * Cg + c) (i * sH + k') (j * sW + kw) * w.get [o, c, k, kw / dW])
       · simp only [hm, if_false]
         exact sumTo_const_zero _
     rw [sumTo_congr inner]
     rw [sumTo_dilate' KW dW hKW hdW (fun k k' =>
-      sumTo KH (fun kh => padRead2 x H W pH pW n (o % g * Cg + c) (i * sH + kh * dH) (j * sW + k') * w.get [o, c, kh, k]))]
+      sumTo KH (fun kh => padRead2 x H W pH pW n (o / Og * Cg + c) (i * sH + kh * dH) (j * sW + k') * w.get [o, c, kh, k]))]
     exact sumTo_comm KW KH _
 
 theorem conv2dLoop_congr_grp {grp grp' : Nat → Nat} {o : Nat} (h : grp o = grp' o) (x w : Arr Int) (bias : Option (Arr Int))
